@@ -33,7 +33,7 @@ REG = {
     "C09": {
         "module": "Props.C09",
         "suites": [("ns", (2500, 40000))],
-        "rule": _RULE + "12% of the C09 cases are same-directory twins: two or three different FILES of one root namespace directory tree that denote one full name and "
+        "rule": _RULE + "6% of the C09 cases (gen_outofrange) put version numbers beyond 255 (256, 257, 511, 512, 65536, 2**32, numbers equal to an existing version under major*256+minor, (major<<8)|minor, radix 255/1000 or in their low bytes) into REFERENCES (missing, whatever legal version there is) and into the names of files nobody refers to (change nothing). 12% of the C09 cases are same-directory twins: two or three different FILES of one root namespace directory tree that denote one full name and "
                 "version (with / without a fixed port-ID, two different port-IDs, .dsdl next to .uavcan; equal or different contents; at the root of the namespace or nested; "
                 "in a lookup directory, in the referrers' own tree, 20% of the read_files calls with files of the pair among the targets) with 1-3 references to that name "
                 "and version (relative / absolute, from targets and from dependencies of targets; 7% to a version nobody has), 20% controls where the second file carries "
@@ -63,7 +63,7 @@ REG = {
     "C10": {
         "module": "Props.C10",
         "suites": [("ns", (2500, 40000))],
-        "rule": _RULE + "30% of the C10 cases are directory-argument sets: half from a fixed pool (nested, same name, names equal up to case, allow/disallow "
+        "rule": _RULE + "40% of the read_files MIX spellings name a root twice in different forms - by its bare NAME next to its path(s), in any order / number - and spell targets relative to the directory above their root ('relroot') from working directories where no such path exists; the corpus enumerates name/path orders x target spellings x working directories. 30% of the C10 cases are directory-argument sets: half from a fixed pool (nested, same name, names equal up to case, allow/disallow "
                 "collisions), half sets of 2-6 directories drawn from a universe built around one directory D: D/s, D/s/t, D/s/t/u, siblings whose names extend D's "
                 "name by punctuation sorting below '/' (-ext, +legacy, .old, ' copy', ...) or by characters sorting above it (_v2, 2, s, ...), directories nested "
                 "inside those siblings, the same one level further down, D in another letter case, D in another workspace, the parent of D; 60% of these sets contain "
@@ -170,7 +170,7 @@ REG = {
     "C19": {
         "module": "Props.C19",
         "suites": [("ns", (2500, 40000))],
-        "rule": _RULE + "every C19 case additionally replaces one definition (90% outside the dependency closure of the targets) by garbage, a failing assert / unknown directive, "
+        "rule": _RULE + "6% of the C19 cases (gen_outofrange) turn an unreferenced file into one whose NAME carries version numbers beyond 255 that equal a referenced (present or dangling) version under a lossy encoding of the pair; 2% of the replacements are files of a given SIZE (0, 1, 2**20-1, 2**20, 2**20+1, several MiB; corpus: every size x lookup directory / target's own root). every C19 case additionally replaces one definition (90% outside the dependency closure of the targets) by garbage, a failing assert / unknown directive, "
                 "an extra @print, a missing serialization mode, the other kind, other sealing / extent, a dangling reference, or renames it to another port-ID / version / name "
                 "/ a malformed name, and reads again; 10% of the C19 cases are MENTIONS: a target or a real dependency of a target (Top -> Dep -> Leaf, a second target) writes "
                 "1-3 times the exact versioned name - absolute, or relative inside its namespace - of a definition it does not refer to, in a comment line, in the comment "
